@@ -268,6 +268,42 @@ def fingerprint_inputs(fp_keys, r, frac=1.0):
                     yield b(" ".join(toks[:-1]))
 
 
+INFLATE_SQL_SEEDS = ["$a$x$a$ or 1=1", "$a$x or y$a$ union select 1", "q'[a]' or 1=1", "nq'(a)' or 1=1", "1 /*a*/ or 1=1 -- x", "1 union/*a*/select 1,2,3",
+                     "a having 1", "a limit 1", "1 a union select 1", "1,2,3", "1 union select 1,2,3", "((1)) or 1=1", "1 --1 union select 1", "a*b #\nunion select 1",
+                     "1 or 1={``.``.id}", "1 union select 1 {``", "1 union select 1,2,/**/3", "select a from b * /*c*/ 2", "'a' 'b' or 'c'='c", "x' or 'a\\'='a",
+                     "1 or 'a''b'='a''b'", "@a or @@b", "0x1F or 1=1", "1e1 or 1.e1=1", "[a] or 1=1", "`a` or `b`=`b`", "1;drop table a", "1 - -1 or !!1",
+                     "a.b.c or.1", "1 a b c d e union select 1", "foo bar baz qux quux 'x' or 1=1 --", "a b c d e f' or 1=1--", "1 and sleep(5)", "\\' or 1=1 -- "]
+INFLATE_HTML_SEEDS = ["<!---!>x<b>", "<!-- - --><b onclick=1>", "<!--a-\x00->b", "<![CDATA[a]]]>b<c>", "<%a%%>b", "<?a?>b", "<!a>b", "<a b=c d=e onclick=1>", "<a b='c' d=\"e\" onload=1>",
+                      "x' a=b onclick=1 ", "x\" a b c onclick=1 ", "x` a=b ", "<a href=\"&#32;javascript:1\">", "<a href=' &#106;&#0;&#10;avascript:1'>", "<a href=&#00106avascript:1>",
+                      "<s\x00cript>", "<x o\x00nclick=1>", "<script >", "</a ><script>", "<a/b/c onclick=1>", "<a b = c onclick = 1>", "a b onclick", "a `", "<x y=`z` onclick=1>",
+                      "<!DOCTYPE a>b", "<a b=c/><d onclick=1>", "<a \x00b=c>", "< a>", "<a b=\"c>d onclick=1", "&#32;&#x20;javascript:1", "<svg><a xlink:href=javascript:1>"]
+
+
+def _chunks(s):
+    """split into words, character references and single bytes (a word also as word + following blank)"""
+    import re
+    return [m.group(0) for m in re.finditer(r"&#[xX]?[0-9a-fA-F]*;?|[A-Za-z0-9_]+ ?|[\s\S]", s)]
+
+
+def inflate(seeds, counts=(17, 33, 65, 130), r=None, frac=1.0):
+    """depth by repetition: every chunk of every seed (word, word + blank, character reference, single byte) repeated n times,
+    at one place, and at every place where the same chunk occurs (so that opening and closing tags grow together)"""
+    for seed in seeds:
+        ch = _chunks(seed)
+        seen = set()
+        for i, c in enumerate(ch):
+            for n in counts:
+                for everywhere in (False, True):
+                    if everywhere and ch.count(c) < 2:
+                        continue
+                    if r is not None and frac < 1.0 and r.random() > frac:
+                        continue
+                    out = "".join((x * n if (j == i or (everywhere and x == c)) else x) for j, x in enumerate(ch))
+                    if out not in seen:
+                        seen.add(out)
+                        yield b(out)
+
+
 def literal_bodies(maxlen):
     """SQL literal openers x all bodies over {closer, quote, backslash, filler, opener byte}"""
     fam = [("q'[", "]'a["), ("q'x", "x'a"), ("q'(", ")'a("), ("nq'!", "!'a"), ("$a$", "$a x"), ("$$", "$a"), ("'", "'\\a"), ('"', '"\\a'),
